@@ -64,7 +64,8 @@ Definition boxed_into_child : list vop := [VLocksDropInPlace; VFromRawInto].    
 (* ---------------------------------------------------------------- what a path does to n freshly built values *)
 Inductive vpath :=
 | PDrop | PIntoInner | PIntoChild | PLockThenIntoInner | PGetMut | PIntoIter | PIntoIterPartial | PFromIter | PExtend
-| PTryNewReject | PTryNewAccept | PRefColl | PDefault | PNestedIntoInner | PPoisonableIntoInner.
+| PTryNewReject | PTryNewAccept | PRefColl | PDefault | PNestedIntoInner | PPoisonableIntoInner
+| PDropUnw.          (* dropped by unwinding: the collection is a local of a frame a panic passes through *)
 
 Inductive vkind := VKBoxed | VKOwned | VKRetry | VKRef.
 
@@ -76,7 +77,7 @@ Definition vmodel (k : vkind) (p : vpath) (n : nat) (wpos : option nat) : list v
   let vs := fresh n wpos in
   let writes_seen := match k with VKOwned => fresh n None | _ => vs end in   (* the harness writes through child(), which owned lacks *)
   match p with
-  | PDrop =>
+  | PDrop | PDropUnw =>
       match k with
       | VKBoxed => ([], fst (vrun l0 (boxed_new (fresh n None) ++ boxed_drop)))
       | _ => ([], fst (vrun l0 [VDropVals (fresh n None)]))
@@ -122,7 +123,7 @@ Definition mon_C16 (k : vkind) (p : vpath) (n : nat) (wpos : option nat) (return
   forallb (fun i => Nat.eqb (nth i drops 0) (if memb i (created k p n) then 1 else 0)) (seq 0 32) &&
   (* the values come back at their declared positions *)
   match p with
-  | PDrop | PTryNewReject | PDefault => is_nil returned
+  | PDrop | PDropUnw | PTryNewReject | PDefault => is_nil returned
   | PIntoIterPartial => Nat.eqb (length returned) (Nat.min 1 n)
   | _ => Nat.eqb (length returned) (length (created k p n) - match p with PTryNewAccept => 1 | _ => 0 end)
   end &&
